@@ -9,6 +9,11 @@ LIB_JOBS = [("martini3", ["PEO:4"]), ("martini3", ["PS:3"]), ("martini3", ["PMMA
             ("gromos53A6", ["P3HT:3"]), ("martini3", ["PEO:2", "PS:2"]), ("martini3", ["P3HT:3"])]
 
 
+# jobs that gen_params must refuse in a fresh process: the block only exists in ANOTHER shipped library
+LIB_FAIL_JOBS = [("martini2", ["PMA:3"]), ("martini2", ["PMMA:2"]), ("gromos53A6", ["PEO:3"]), ("2016H66", ["P3HT:3"]),
+                 ("oplsaaLigParGen", ["PS:3"]), ("gromos53A6", ["PS:2"])]
+
+
 def make_op(ff, rg, g, out="out.itp", graph_kind=None, **kw):
     kind = graph_kind or ("seq" if (rg["shape"] == "linear" and g.random() < 0.4) else "json")
     if kind == "seq" and rg["shape"] != "linear":
@@ -21,8 +26,11 @@ def make_op(ff, rg, g, out="out.itp", graph_kind=None, **kw):
     return op
 
 
-def lib_op(g, out="out.itp"):
-    lib, seq = g.choice(LIB_JOBS)
+def lib_op(g, out="out.itp", other_than=None, must_fail=False):
+    pool = LIB_FAIL_JOBS if must_fail else LIB_JOBS
+    if other_than is not None:
+        pool = [j for j in pool if j[0] != other_than] or pool
+    lib, seq = g.choice(pool)
     return {"op": "gen_params", "name": "LIBMOL", "files": [], "lib": [lib], "graph": {"kind": "seq", "seq": list(seq)},
             "out": out, "resgraph": None}
 
